@@ -229,6 +229,123 @@ pub fn line_for(target: &str, d: &[u8]) -> String {
         "hdr" => line_hdr(d),
         "body" => line_body(d),
         "route" => line_route(d),
+        "print" => line_print(d),
         _ => "BAD-TARGET".into(),
     }
+}
+
+// ------------------------------------------------------------------------------------------------ PRINT
+
+pub struct PrintCase {
+    pub entry: &'static str,
+    pub code: u16,
+    pub reason: Vec<u8>,
+    pub nodate: bool,
+    pub ops: Vec<HOp>,
+    pub n: usize,
+    pub pieces: Vec<usize>,
+    pub method: &'static str,
+    pub uri: &'static str,
+}
+
+const VALCH: &[u8] = b"abcxyzABC019 ,;=-_./\t";
+const BODY_SIZES: [usize; 12] = [0, 1, 2, 5, 100, 2047, 2048, 2049, 8191, 8192, 8193, 9000];
+const PIECE_SIZES: [usize; 8] = [1, 2, 7, 127, 128, 1024, 4096, 70000];
+const PRINT_VALUES: [&str; 12] = ["chunked", "gzip, chunked", "chunked,", ",Chunked", "chunked , ", "close", "keep-alive, Close", "5", "0", "007", "x", ""];
+
+/// [entry][code hi][code lo][reason][nodate][size][#pieces][pieces…][#ops]{[op][name…][value selector / bytes]}
+pub fn dec_print(d: &[u8]) -> PrintCase {
+    let mut c = Cur::new(d);
+    let entry = ["bytes", "reader", "empty", "request", "reader"][c.u8().unwrap_or(0) as usize % 5];
+    let raw = ((c.u8().unwrap_or(0) as u16) << 8) | c.u8().unwrap_or(200) as u16;
+    let code = 100 + raw % 900;
+    let reason: Vec<u8> = match c.u8().unwrap_or(0) % 6 {
+        0 => b"OK".to_vec(),
+        1 => Vec::new(),
+        2 => b"NOT FOUND".to_vec(),
+        3 => b"Fine".to_vec(),
+        4 => b"ok".to_vec(),
+        _ => {
+            let len = c.u8().unwrap_or(1) as usize % 12 + 1;
+            let r: Vec<u8> = c.take(len).iter().map(|b| b"abcXYZ' -0"[*b as usize % 10]).collect();
+            let t: Vec<u8> = r.iter().copied().skip_while(|b| *b == b' ').collect();
+            let mut t2 = t.clone();
+            while t2.last() == Some(&b' ') { t2.pop(); }
+            if t2.is_empty() { b"Fine".to_vec() } else { t2 }
+        }
+    };
+    let nodate = c.u8().unwrap_or(1) % 4 != 0;
+    let mut n = BODY_SIZES[c.u8().unwrap_or(0) as usize % BODY_SIZES.len()];
+    if entry == "empty" {
+        n = 0;
+    }
+    let np = c.u8().unwrap_or(0) as usize % 4;
+    let mut pieces = Vec::new();
+    for _ in 0..np {
+        pieces.push(PIECE_SIZES[c.u8().unwrap_or(0) as usize % 8]);
+    }
+    let nops = c.u8().unwrap_or(0) as usize % 6;
+    let mut ops = Vec::new();
+    for _ in 0..nops {
+        let b = match c.u8() {
+            Some(b) => b,
+            None => break,
+        };
+        match b % 8 {
+            4 => {
+                let k = c.u8().unwrap_or(0) % 6;
+                let v = [0usize, n, n.saturating_sub(1), n + 1, 3, n + 7][k as usize];
+                ops.push(HOp::Scl(Some(v as u64)));
+            }
+            5 => ops.push(HOp::Ste),
+            6 => ops.push(HOp::Scc),
+            k => {
+                let name = dec_name(&mut c);
+                if k == 3 {
+                    ops.push(HOp::Rm(name));
+                } else {
+                    let sel = c.u8().unwrap_or(0);
+                    let v: Vec<u8> = if sel < 0xc0 {
+                        PRINT_VALUES[sel as usize % PRINT_VALUES.len()].as_bytes().to_vec()
+                    } else {
+                        let len = c.u8().unwrap_or(0) as usize % 16;
+                        let raw: Vec<u8> = c.take(len).iter().map(|b| VALCH[*b as usize % VALCH.len()]).collect();
+                        // values are stored trimmed by the generators of this domain (no leading / trailing OWS)
+                        let s: Vec<u8> = raw.iter().copied().skip_while(|b| *b == b' ' || *b == b'\t').collect();
+                        let mut s2 = s.clone();
+                        while matches!(s2.last(), Some(b' ') | Some(b'\t')) { s2.pop(); }
+                        s2
+                    };
+                    ops.push(if k == 2 { HOp::Rep(name, v) } else { HOp::Add(name, v) });
+                }
+            }
+        }
+    }
+    let method = ["GET", "POST", "PURGE"][c.u8().unwrap_or(0) as usize % 3];
+    let uri = ["/", "/api/v1?x=1", "*"][c.u8().unwrap_or(0) as usize % 3];
+    PrintCase { entry, code, reason, nodate, ops, n, pieces, method, uri }
+}
+
+pub fn line_print(d: &[u8]) -> String {
+    let p = dec_print(d);
+    let mut parts: Vec<String> = Vec::new();
+    for op in &p.ops {
+        parts.push(match op {
+            HOp::Add(n, v) => format!("add:{}:{}", hex(n.as_bytes()), hex(v)),
+            HOp::Rep(n, v) => format!("rep:{}:{}", hex(n.as_bytes()), hex(v)),
+            HOp::Rm(n) => format!("rm:{}", hex(n.as_bytes())),
+            HOp::Scl(None) => "scl:0".to_string(),
+            HOp::Scl(Some(n)) => format!("scl:{}", n),
+            HOp::Ste => "ste".to_string(),
+            HOp::Scc => "scc".to_string(),
+        });
+    }
+    let mut line = format!(
+        "PRINT entry={} code={} reason={} nodate={} hdr={} bodyrep=78*{} pieces={}",
+        p.entry, p.code, hex(&p.reason), p.nodate as u8, if parts.is_empty() { "-".to_string() } else { parts.join(";") }, p.n, nums(&p.pieces)
+    );
+    if p.entry == "request" {
+        line.push_str(&format!(" method={} uri={}", p.method, hex(p.uri.as_bytes())));
+    }
+    line
 }
